@@ -211,3 +211,7 @@ R.contract(
     replayable=False,
 )
 R.spec_funcs["same_d"] = lambda it, a, b: (a is None and b is None) if (a is None or b is None) else __import__("pyvc.ops", fromlist=["eq"]).eq(a, b)
+
+# create_test (settings merge, seed, phases) is verified in C13's module; its clauses about the user's limits / about a test being built at all belong to this property too
+# (finding F05b): the same job runs as part of this check.
+SHARED_JOBS = [("C13", "schemathesis.generation.hypothesis.builder:create_test")]
